@@ -1,4 +1,9 @@
 // One translation unit per policy configuration: -DDYN_POLICY=<name in dyn::pol>
+// generator.hpp defines two non-inline member functions: give the class a distinct name in every
+// translation unit so that the policy TUs can be linked together
+#define DYN_CAT2(a, b) a##b
+#define DYN_CAT(a, b) DYN_CAT2(a, b)
+#define generator DYN_CAT(generator_, DYN_POLICY)
 #include "dyn_runner.hpp"
 
 #define STR2(x) #x
